@@ -2,6 +2,7 @@
 SPECIFICATION Spec
 CONSTANTS
   MaxObj = 4
+  Extended = TRUE
   Ks = {1, 2}
   NsSeq <- Ns3
   WithEmpty = TRUE
